@@ -35,10 +35,10 @@ ALLE = {"doc", "tpl", "rnd"}
 NAMES = {"base", "A", "B", "G"}
 
 
-def mc_cfg(ctx, name, variant, pool, maxloads, invariants, properties):
+def mc_cfg(ctx, name, variant, pool, maxloads, invariants, properties, datas="DatasStd"):
     return ctx.cfg(name, "SpecMC",
                    {"Variant": variant, "OpKinds": ALLK, "ArgNames": NAMES, "Entries": ALLE, "MaxLoads": maxloads, "Depth": 0},
-                   invariants=invariants, properties=properties, extra="CONSTANTS\n  Loadables <- %s\n  RDatas <- DatasKinds" % pool)
+                   invariants=invariants, properties=properties, extra="CONSTANTS\n  Loadables <- %s\n  RDatas <- %s" % (pool, datas))
 
 
 def gen_cfg(ctx, name, pool, kinds, argnames, entries, depth, datas="DatasStd"):
@@ -150,7 +150,8 @@ def merged(ctx, tag, lists):
 def sequential(ctx, q):
     inv = ["Inv_ShowsPure", "Inv_RenderPure", "Inv_FrontAgnostic", "Inv_CacheAgree"]
     props = ["Act_Local", "Act_ReadersPure", "Act_ValuesImmutable"]
-    ctx.tlc_mc("Engine_MC.tla", mc_cfg(ctx, "mc_ref.cfg", "ref", "PoolCore" if q else "PoolQuick", 3 if q else 4, inv, props), timeout=900)
+    ctx.tlc_mc("Engine_MC.tla", mc_cfg(ctx, "mc_ref.cfg", "ref", "PoolCore" if q else "PoolQuick", 3 if q else 4, inv, props,
+                                         "DatasStd" if q else "DatasKinds"), timeout=900)
     # as-built variant: base shows the child's block after two loads, a sibling after three
     expect_violation(ctx, "Engine_MC.tla", mc_cfg(ctx, "mc_built_inv.cfg", "built", "PoolTiny", 3, ["Inv_ShowsPure"], []), "Inv_ShowsPure")
     if not q:
@@ -183,7 +184,10 @@ def sequential(ctx, q):
 
 def concurrent(ctx, q):
     inv = ["Inv_ConcPure", "Inv_NoRace", "Inv_NotStuck", "Inv_CacheAgree"]
-    progs = "ProgsQuick" if q else "ProgsThorough"
+    # writers against readers and readers against readers over string templates with inheritance (from SetupBaseA), and
+    # document templates (tables, loops, conditionals) rendered by two threads at once, each with data of its own, through
+    # all three entry points, analysis next to renders, a reload from a file in between (from SetupDocs)
+    progs = "ProgsQuickAll" if q else "ProgsThoroughAll"
     ctx.tlc_mc("Engine_Conc.tla", conc_cfg(ctx, "conc_ref.cfg", "ref", "SetupBaseA", progs, inv), timeout=600)
     expect_violation(ctx, "Engine_Conc.tla", conc_cfg(ctx, "conc_built_race.cfg", "built", "SetupBaseA", "ProgsTiny", ["Inv_NoRace"]), "Inv_NoRace")
     if not q:
@@ -199,8 +203,8 @@ def concurrent(ctx, q):
                          mode="sim", num=20 if q else 300, depth=40)]
     obs = ctx.run_exec("enginegate", merged(ctx, "gate", lists), "gate")
     n, ngates = conc_stats(ctx, obs, "forced_schedules")
-    ctx.extra_cov["forced_schedules"]["behaviours"] = {"two_threads_inheritance": len(lists[0]), "two_threads_flat": len(lists[1]),
-                                                       "three_threads_sampled": len(lists[2])}
+    ctx.extra_cov["forced_schedules"]["behaviours"] = {"two_threads_inheritance_and_document_templates": len(lists[0]),
+                                                       "two_threads_flat": len(lists[1]), "three_threads_sampled": len(lists[2])}
     judge(ctx, obs, "gate")
     if ngates == 0:
         ctx.extra_cov["forced_schedules"]["mode"] = "library has no engine.* hook points: schedules degraded to call-level interleavings"
